@@ -92,6 +92,7 @@ func main() {
 		run("robust v3", func() (string, bool) { return robustProbe(repo, "v3/metric") })
 		run("robust v2", func() (string, bool) { return robustProbe(repo, "v2/metric") })
 		run("names", func() (string, bool) { return namesProbe(u, repo) })
+		run("tables", func() (string, bool) { return tablesProbe(u, st, repo) })
 		run("sentinels", func() (string, bool) { return sentinelProbe(repo) })
 		run("race", func() (string, bool) { return raceReplay(repo) })
 		fmt.Printf("probes with a hit: %d\n", bad)
